@@ -8,7 +8,7 @@
                   (each call is made after the previous one returned: the model ignores a call made earlier)
    clause_* i o = first step of the observation o at which the clause fails (Spec.v); None = holds throughout *)
 From Coq Require Import List Bool Arith ZArith NArith.
-From AUC Require Import C12.Model C12.Spec C12.Yields C12.Clean C12.Aon C12.Witness C12.Fail C12.Witness2.
+From AUC Require Import C12.Model C12.Spec C12.Yields C12.Clean C12.Aon C12.Witness C12.Fail C12.Alive C12.Witness2.
 Import ListNotations.
 
 (* All or nothing, for every schedule of the domain - every number of services, every reaction sequence, every latency:
@@ -64,6 +64,16 @@ Theorem C12_failure_reported :
 Proof. exact failure_reported. Qed.
 Print Assumptions C12_failure_reported.
 
+(* Kept alive, for every schedule of the domain that satisfies lapse_premise (automatic renewal was requested; no
+   subscribe call / renewal pass of the run waited longer than the tolerance, 60 s, for its responses in total; every
+   timeout granted in the run exceeds the tolerance plus that longest wait): at every step every SID the profile holds is
+   still held by the publisher, which will not expire it before the current time, and the publisher never accepted a
+   renewal of a subscription it had already expired. *)
+Theorem C12_kept_alive :
+  forall i : input, in_domain i = true -> lapse_premise i = true -> clause_alive i (model_run i) = None.
+Proof. exact kept_alive. Qed.
+Print Assumptions C12_kept_alive.
+
 (* Non-vacuity. *)
 Example C12_clean_inhabited :
   in_domain w_clean = true /\ kf_inflight w_clean = false /\
@@ -89,3 +99,12 @@ Example C12_failures_inhabited :
   map o_avail (skipn 10 (model_run w_failed)) = [true; false; false; false; false; false] /\
   map (fun q => fst (fst (fst q))) (concat (map o_newreqs (model_run w_failed))) = [QSub; QSub; QRenew; QRenew; QSub].
 Proof. exact failed_example. Qed.
+
+Example C12_kept_alive_inhabited :
+  in_domain w_alive2 = true /\ lapse_premise w_alive2 = true /\ g_maxdur (run w_alive2) = 55%Z /\
+  map (fun q => (fst (fst (fst q)), snd (fst q))) (concat (map o_newreqs (model_run w_alive2))) =
+    [(QSub, None); (QSub, None); (QRenew, Some 0%nat); (QRenew, Some 1%nat); (QSub, None); (QRenew, Some 2%nat);
+     (QRenew, Some 3%nat); (QRenew, Some 2%nat)] /\
+  o_now (last (model_run w_alive2) snap0) = 291%Z /\
+  o_live (last (model_run w_alive2) snap0) = [(1%nat, Some 175%Z); (2%nat, Some 770%Z); (3%nat, Some 391%Z)].
+Proof. exact alive2_example. Qed.
